@@ -7,7 +7,7 @@ CID_TEXT = "d,format,delimited\nf,id,,,,Integer\nf,kind\nc,u,IsUnique,id\nc,k,Di
 FIXED_CID_TEXT = "d,format,fixed\nd,line delimiter,lf\nf,id,,,1,Integer\nf,kind,,,1\nc,u,IsUnique,id\nc,k,DistinctCount,kind < 3\n"
 CLEAN = "1,a\n2,b\n"; DUP = "1,a\n1,b\n"; MANY = "1,a\n2,b\n3,c\n"        # MANY fails the distinct count at the end
 OTHER = "5,x\n6,y\n"                                                        # fine on its own; together with what CLEAN leaves behind it would exceed the distinct count
-OPS = ["read_clean", "read_dup", "read_many", "abandon1", "abandon2", "read_noclose", "write", "write_close", "write_dup", "two_readers", "validate_0", "validate_1", "reader_unused", "read_other"]
+OPS = ["read_clean", "read_dup", "read_many", "abandon1", "abandon2", "read_noclose", "write", "write_close", "write_dup", "two_readers", "validate_0", "validate_1", "reader_unused", "read_other", "write_nothing"]
 
 
 def run_op(cid, op):
@@ -41,6 +41,10 @@ def run_op(cid, op):
     if op == "read_noclose":
         def f():
             r = validio.Reader(cid, io.StringIO(T(CLEAN))); return [x for x in r.rows()]      # never closed
+        return outcome(f)
+    if op == "write_nothing":                      # a writer that is closed without having written a row: the end-of-data checks see an empty data set
+        def f():
+            out = io.StringIO(); w = validio.Writer(cid, out); w.close(); return out.getvalue()
         return outcome(f)
     if op in ("write", "write_close", "write_dup"):
         def f():
